@@ -83,6 +83,9 @@ func Main(h CLIHooks) {
 		os.Exit(2)
 	}
 	w := &Worker{hooks: h, job: &job}
+	if job.Tier != "" {
+		corpusTier = job.Tier
+	}
 	f, err := os.Create(job.Out)
 	if err != nil {
 		fmt.Fprintln(os.Stderr, err)
@@ -284,7 +287,12 @@ func (w *Worker) run() error {
 	}
 	ds, tot := simrt.SiteHits()
 	seen, multi, unctl := simrt.MapSiteTable()
-	proc := map[string]any{"load_ms": loadMs, "yield_sites_hit": ds, "yields_total": tot,
+	ix2, _ := BuildIndex(job.RepoDir, extraCorpus())
+	corpusDigest := w.index.Digest(w.index.Dirs)
+	if ix2 == nil || ix2.Digest(ix2.Dirs) != corpusDigest {
+		corpusDigest += "+changed-while-running"
+	}
+	proc := map[string]any{"load_ms": loadMs, "yield_sites_hit": ds, "yields_total": tot, "corpus_digest": corpusDigest,
 		"map_sites_seen": keysOf(seen), "map_sites_multi": keysOf(multi), "map_sites_uncontrolled": keysOf(unctl),
 		"ref_entries_computed": w.refTable.computed, "race_build": raceEnabled}
 	w.emit(&simapi.RunResult{Done: true, Proc: proc})
